@@ -67,19 +67,21 @@ func (prop) Info() fw.Info {
 			fmt.Sprintf("worker goroutine stack limited to %d MB so that unbounded recursion is reported quickly", maxStack>>20),
 		},
 		CaseTimeout: 120,
+		// about a third of what one quick run at seed 1 observes
 		CountFloors: map[string]int{
 			"diagrams":                600,
-			"arrows_checked":          1000,
-			"calls_checked":           1000,
-			"deps_checked":            500,
-			"views_pt_cycle":          5,
-			"views_pt_chain":          10,
-			"views_excluded_caller":   10,
-			"views_self_call":         10,
-			"views_hidden_call":       5,
-			"views_human_target":      5,
-			"clusters_read":           10,
-			"passthrough_arrows_seen": 20,
+			"arrows_checked":          4000,
+			"calls_checked":           3500,
+			"deps_checked":            1300,
+			"views_pt_cycle":          20,
+			"views_pt_chain":          50,
+			"views_pt_walk":           70,
+			"passthrough_arrows_seen": 50,
+			"views_excluded_caller":   100,
+			"views_self_call":         100,
+			"views_hidden_call":       70,
+			"views_human_target":      25,
+			"clusters_read":           60,
 		},
 		SetFloors: map[string]int{"shapes": 21},
 	}
